@@ -10,6 +10,14 @@ partial def mentionsAsset (j : Json) : Bool :=
   | .arr xs => xs.any mentionsAsset
   | _ => false
 
+/-- does the data carry a Go value the data-conversion model has no counterpart for (`{"__go": "ordered", …}`: a Go map type with
+a display order of its own)? Such jobs are judged on the real engine only (concurrent = alone, same in every process). -/
+partial def hasGoOrdered (j : Json) : Bool :=
+  match j with
+  | .obj kvs => kvs.toList.any fun (k, v) => (k == "__go" && v == .str "ordered") || hasGoOrdered v
+  | .arr xs => xs.any hasGoOrdered
+  | _ => false
+
 /-- C08: the engine of the model is the list of jobs' compiled documents; every call is run through the scheduler model
 under a round-robin AND a reversed, bursty schedule; both must give what the model's single render gives (that they do is
 theorem C08_render_alone - here it is executed). The answer is the per-job result of the call run alone. -/
@@ -18,6 +26,7 @@ def runConcCase (c : Json) : Json × Json :=
   let debug := jbool c "debug"
   let alone : List Json := jobs.map fun j =>
     if mentionsAsset (jget j "doc") then clsOut "model-domain" "asset() / debug() are not in the executor model" else
+    if hasGoOrdered (jget j "data") then clsOut "model-domain" "ordered Go map type in the data" else
     match (jarr j "doc").mapM decNode with
     | .error e => clsOut "model-domain" ("decode: " ++ e)
     | .ok doc => renderModel doc (jget j "data") [] debug
